@@ -42,9 +42,10 @@ def finding_matches(kf, pid, hid, name):
         and fnmatch.fnmatchcase(name, kf["obligation"])
 
 
-def run_check(pid, harnesses, tier="quick", seed=0, budget=20.0, level="proof", assumptions=(), not_decided=(),
+def run_check(pid, harnesses, tier="quick", seed=0, budget=None, level="proof", assumptions=(), not_decided=(),
               bounded_in=None, unbounded_in=None, update_ledger=False, extra_cov=None, jobs=None, explanation=None):
     t0 = time.time()
+    budget = budget or (6.0 if tier == "quick" else 30.0)
     global _H
     _H = list(harnesses)
     ids = [h.hid for h in _H]
